@@ -445,6 +445,58 @@ fn concurrent_new_pages(rounds: usize, rep: &mut Report) {
     }
 }
 
+/// The same coordinate on two pages of DIFFERENT column strides, one access right after the other: each page's pixel lives
+/// in that page's own byte (4 + x * ceil(height / 8) + y / 8), whatever the access before it worked out for another page.
+fn same_coordinate_on_two_pages(rep: &mut Report) {
+    let dims = [(16u32, 8u32), (8, 16), (20, 20), (112, 16), (90, 7), (30, 10), (9, 33)];
+    for (i, a) in dims.iter().enumerate() {
+        for (j, b) in dims.iter().enumerate() {
+            if i == j {
+                continue;
+            }
+            rep.case(Some(0xC07_2000 + (i * 16 + j) as u64));
+            let (w, h) = (a.0.min(b.0), a.1.min(b.1));
+            let r = catch(|| {
+                let mut bad: Vec<String> = vec![];
+                for x in 0..w {
+                    for y in 0..h {
+                        let mut pa = Page::new(PageId(1), a.0, a.1);
+                        let mut pb = Page::new(PageId(2), b.0, b.1);
+                        pa.set_pixel(x, y, true);
+                        pb.set_pixel(x, y, true);
+                        let got_b = pb.get_pixel(x, y);
+                        let got_a = pa.get_pixel(x, y);
+                        for (name, p, dim) in [("first", &pa, a), ("second", &pb, b)] {
+                            let idx = 4 + (x as usize) * refs::col_bytes(dim.1) + (y / 8) as usize;
+                            let mut want = Page::new(PageId(if name == "first" { 1 } else { 2 }), dim.0, dim.1).as_bytes().to_vec();
+                            want[idx] |= 1 << (y % 8);
+                            if p.as_bytes() != &want[..] && bad.len() < 3 {
+                                let at = p.as_bytes().iter().zip(&want).position(|(u, v)| u != v);
+                                bad.push(format!("pixel ({},{}) set on a {}x{} page and then on a {}x{} page: the {} page differs from its layout at byte {:?} (the pixel belongs in byte {})", x, y, a.0, a.1, b.0, b.1, name, at, idx));
+                            }
+                        }
+                        if (!got_a || !got_b) && bad.len() < 3 {
+                            bad.push(format!("pixel ({},{}) set on a {}x{} page and then on a {}x{} page reads {} / {}", x, y, a.0, a.1, b.0, b.1, got_a, got_b));
+                        }
+                    }
+                }
+                bad
+            });
+            match r {
+                Ok(bad) => {
+                    if bad.is_empty() {
+                        rep.count("page_pairs_accessed_at_the_same_coordinates");
+                    }
+                    for b in bad {
+                        rep.violation(MON, "wrong_byte_after_another_page", &format!("two-pages|{}|{}", i, j), b.clone(), J::obj(vec![("workload", J::s("same coordinate on two pages")), ("observed", J::s(b))]));
+                    }
+                }
+                Err(p) => rep.violation(MON, "panic", &format!("two-pages|{}|{}", i, j), format!("panic {} at {}", p.msg, short_loc(&p.loc)), J::obj(vec![("workload", J::s("same coordinate on two pages"))])),
+            }
+        }
+    }
+}
+
 pub fn run(ctx: &Ctx) -> Outcome {
     let (bw, bh) = if ctx.quick() { (100u32, 48u32) } else { (256, 136) };
     let mut sizes: Vec<(u32, u32, bool)> = vec![]; // (w, h, sampled pixels only)
@@ -522,11 +574,13 @@ pub fn run(ctx: &Ctx) -> Outcome {
         let mut at_exit = Report::new();
         crate::exitprobe::check("page", MON, &mut at_exit);
         concurrent_new_pages(if ctx.quick() { 96 } else { 2000 }, &mut at_exit);
+        same_coordinate_on_two_pages(&mut at_exit);
         crate::exitprobe::check_migration("page", MON, &mut at_exit);
         report.merge(at_exit);
     }
     let floors = vec![
         floor("new pages of 8 different sizes (1 byte .. 1 MiB) built at the same instant on 8 threads, every one checked", report.get("pages_built_while_other_threads_built_other_sizes") >= 8 * 96, report.get("pages_built_while_other_threads_built_other_sizes")),
+        floor("the same coordinate set on two pages of different strides one right after the other (42 ordered pairs, every common pixel)", report.get("page_pairs_accessed_at_the_same_coordinates") == 42, report.get("page_pairs_accessed_at_the_same_coordinates")),
         floor("every size of the box checked", report.get("box_sizes_done") == box_n as u64, report.get("box_sizes_done")),
         floor("11 real sizes and the tall / wide sizes checked pixel by pixel", report.get("real_sizes_done") == 11 + n_tall as u64, report.get("real_sizes_done")),
         floor("every large size checked", report.get("large_sizes_done") == n_large, report.get("large_sizes_done")),
